@@ -2,9 +2,10 @@ from props.index import FAMILY  # noqa: F401
 
 CHECK = dict(
     property='C02', level='exploration',
-    families=[('index', 0.9), ('stale', 0.1)],
+    families=[('index', 0.85), ('stale', 0.1), ('compaction', 0.05)],
     budget=dict(quick=45, thorough=900), max_runs=dict(quick=200_000, thorough=5_000_000),
-    rule=('in 10 % of the runs the reported values are judged at the protocol level instead: real client sessions ask get_history for every script at quiescence, with a non-empty mempool and after reorgs (family stale), and the confirmed part must be the chain\'s list; '
+    rule=('in 5 % of the runs the history database additionally goes through the compaction tool (family compaction: '
+          'completed, interrupted, repeated) before more blocks are indexed and audited; in 10 % of the runs the reported values are judged at the protocol level instead: real client sessions ask get_history for every script at quiescence, with a non-empty mempool and after reorgs (family stale), and the confirmed part must be the chain\'s list; '
           'otherwise each evaluation = one seeded simulated run of the real server (Controller.run) syncing a '
           'generated valid chain (collision coinbases, OP_RETURN forms around the activation height, '
           'same-block spend chains, zero-value / duplicate-script outputs) under per-run knobs '
